@@ -220,3 +220,69 @@ func globalOf(v ssa.Value) string {
 	}
 	return ""
 }
+
+// EnumPathsFromBlock lists acyclic block paths from start to any block ending in a Return.
+func EnumPathsFromBlock(start *ssa.BasicBlock, limit int) [][]*ssa.BasicBlock {
+	var out [][]*ssa.BasicBlock
+	var cur []*ssa.BasicBlock
+	on := map[*ssa.BasicBlock]bool{}
+	var dfs func(b *ssa.BasicBlock)
+	dfs = func(b *ssa.BasicBlock) {
+		if len(out) >= limit {
+			return
+		}
+		cur = append(cur, b)
+		on[b] = true
+		if _, ok := b.Instrs[len(b.Instrs)-1].(*ssa.Return); ok {
+			out = append(out, append([]*ssa.BasicBlock(nil), cur...))
+		}
+		for _, s := range b.Succs {
+			if !on[s] {
+				dfs(s)
+			}
+		}
+		on[b] = false
+		cur = cur[:len(cur)-1]
+	}
+	dfs(start)
+	return out
+}
+
+// MustPassWhenTrue: on every acyclic path from `from` to a return that is FEASIBLE under the
+// assumption "val is true" (a branch whose condition resolves, through the phis of that
+// path, to val or !val must take the matching edge), an instruction satisfying ev is passed.
+// Returns the first offending path's last block, or nil.
+func MustPassWhenTrue(fn *ssa.Function, from ssa.Instruction, val ssa.Value, ev func(ssa.Instruction) bool) *ssa.BasicBlock {
+	start := from.Block()
+	idx := instrIndex(from)
+	for _, path := range EnumPathsFromBlock(start, 4096) {
+		feasible, passed := true, false
+		for i, b := range path {
+			lo := 0
+			if i == 0 {
+				lo = idx + 1
+			}
+			for _, in := range b.Instrs[lo:] {
+				if ev(in) {
+					passed = true
+				}
+			}
+			if i+1 < len(path) {
+				if ifi, ok := b.Instrs[len(b.Instrs)-1].(*ssa.If); ok && len(b.Succs) == 2 && b.Succs[0] != b.Succs[1] {
+					cond, pos := condStrip(ifi.Cond)
+					rv := ResolveOnPath(cond, path[:i+1])
+					if rv == val {
+						takenTrue := b.Succs[0] == path[i+1]
+						if takenTrue != pos {
+							feasible = false
+						}
+					}
+				}
+			}
+		}
+		if feasible && !passed {
+			return path[len(path)-1]
+		}
+	}
+	return nil
+}
